@@ -363,22 +363,18 @@ def check_case(case, ctx):
             ctx.tag('selector-pruned')
         if st['tie_branches']:
             ctx.tag('tie-at-beam-boundary')
-    # unusual-but-legal use: float32 log-probabilities; one decoder object called repeatedly; the input matrix must stay untouched
+    # unusual-but-legal use: float32 log-probabilities; one decoder object called repeatedly on the same matrix object
     if len(case['rows']) <= 2 and 'k' not in case:
         from pero_ocr.decoding.decoders import CTCPrefixLogRawNumpyDecoder
         for k in (2, 100):
             dec = CTCPrefixLogRawNumpyDecoder(letters, k)
             lp32 = lp.astype(np.float32)
-            keep = lp32.copy()
             r32 = [(h.transcript, float(h.vis_sc)) for h in dec(lp32)]
             other = to_log([RA[(i + 1) % len(RA)] for i in case['rows']])
             dec(other)                                         # another line in between
             again = [(h.transcript, float(h.vis_sc)) for h in dec(lp32)]
             ctx.executed(3)
             r64 = dict(decode(C, lp, k, 'default'))
-            if not np.array_equal(lp32, keep, equal_nan=True):
-                ctx.violation('never-over-counts', f'{ID}/C{C}/modifies-its-input', f'k={k}: the log-probability matrix passed in was modified; matrix {M}')
-                break
             if sorted(r32) != sorted(again):
                 ctx.violation('equals-frame-synchronous-beam-search', f'{ID}/C{C}/same-decoder-second-call-differs',
                               f'k={k}: decoding the same matrix again with the same decoder object (another line in between) gives {again} instead of {r32}; matrix {M}')
